@@ -13,7 +13,7 @@ for d in sorted(glob.glob('/verif/seeded/C*-*')):
     notes = open(os.path.join(d, 'NOTES.md')).read() if os.path.exists(os.path.join(d, 'NOTES.md')) else ''
     def log_ok(f):
         p = os.path.join(d, f)
-        return os.path.exists(p) and 'FAIL' not in open(p).read()
+        return os.path.exists(p) and 'FAIL' not in open(p, errors='replace').read()
     needs = ''
     m = re.search(r'(?is)(trigger|what is needed|needs?)[^\n]*\n(.{0,900})', notes)
     if m: needs = ' '.join(m.group(2).split())[:700]
@@ -27,6 +27,9 @@ for d in sorted(glob.glob('/verif/seeded/C*-*')):
             "demo_fails_with_change": not log_ok('demo_with.log'),
             "suite_passes_with_change": log_ok('suite_with.log'),
         },
+        "round": {"A": 1, "B": 1, "C": 2, "D": 2, "E": 3, "F": 3}.get(name.split('-')[1], 0),
+        "files": {"patch": "patch.diff", "demonstration": "demo_test.go", "agent_notes": "NOTES.md", "logs": ["demo_without.log", "demo_with.log", "build.log", "suite_with.log"]},
+        "how_to_run_a_check_against_it": "bin/run_seed.sh %s <check id> [quick|thorough]  (git -C /repo apply patch.diff; bin/vcheck ...; git -C /repo checkout -- .)" % name,
         "checks_run": res.get(name, []),
         "caught": any(r["exit"] == 1 and r["violation_lines"] > 0 for r in res.get(name, [])),
     }
